@@ -108,6 +108,8 @@ type Interp struct {
 	permBySize   map[int][]int
 	nativeCells  map[any]*Value
 	mons         [2]*monitor
+	vfs          map[string]Slice
+	vfsOrder     []string
 	globalCells  map[any]bool
 	NoModel   map[string]bool // external models switched off (validation harnesses)
 }
